@@ -31,8 +31,16 @@ fn nid_of(s: &str) -> u64 {
 fn block(h: u64) -> Block {
     Block::new(BlockHeader { height: h, proposer: "p".into(), ..BlockHeader::default() }, vec![])
 }
+static TRAILING: std::sync::atomic::AtomicUsize = std::sync::atomic::AtomicUsize::new(1);
 fn config() -> RaftConfig {
-    RaftConfig { enable_fast_path: false, enable_geometric_tiebreak: false, enable_pre_vote: false, auto_heartbeat: false, ..RaftConfig::default() }
+    RaftConfig {
+        enable_fast_path: false,
+        enable_geometric_tiebreak: false,
+        enable_pre_vote: false,
+        auto_heartbeat: false,
+        snapshot_trailing_logs: TRAILING.load(std::sync::atomic::Ordering::SeqCst),
+        ..RaftConfig::default()
+    }
 }
 fn open_node(path: &Path) -> std::io::Result<RaftNode> {
     RaftNode::with_wal(nid(0), vec![nid(1), nid(2)], Arc::new(MemoryTransport::new(nid(0))), config(), path)
@@ -48,6 +56,9 @@ enum Step {
     AppendResp { from: u64, t: u64 },
     BecomeLeader,
     Propose(u64),
+    /// in-memory log compaction: finalize_to(commit_index - back), create_snapshot, truncate_log;
+    /// `newbase` (first retained index - 1) is read off the node afterwards
+    Compact { back: u64, newbase: u64 },
 }
 fn le_coq(e: &LEntry) -> String {
     format!("({}, {}, {})", e.0, e.1, e.2)
@@ -55,15 +66,16 @@ fn le_coq(e: &LEntry) -> String {
 impl Step {
     fn coq(&self) -> String {
         match self {
-            Step::Elect => "Elect".into(),
-            Step::ReqVote { t, cand, lli, llt } => format!("ReqVote {t} {cand} {lli} {llt}"),
-            Step::VoteResp { from, t, granted } => format!("VoteResp {from} {t} {}", b(*granted)),
+            Step::Elect => "XS Elect".into(),
+            Step::ReqVote { t, cand, lli, llt } => format!("XS (ReqVote {t} {cand} {lli} {llt})"),
+            Step::VoteResp { from, t, granted } => format!("XS (VoteResp {from} {t} {})", b(*granted)),
             Step::Append { t, leader, prev_i, prev_t, ents, commit } => {
-                format!("Append {t} {leader} {prev_i} {prev_t} {} {commit}", list(ents.iter().map(le_coq)))
+                format!("XS (Append {t} {leader} {prev_i} {prev_t} {} {commit})", list(ents.iter().map(le_coq)))
             }
-            Step::AppendResp { from, t } => format!("AppendResp {from} {t}"),
-            Step::BecomeLeader => "BecomeLeader".into(),
-            Step::Propose(h) => format!("Propose {h}"),
+            Step::AppendResp { from, t } => format!("XS (AppendResp {from} {t})"),
+            Step::BecomeLeader => "XS BecomeLeader".into(),
+            Step::Compact { newbase, .. } => format!("XCompact {newbase}"),
+            Step::Propose(h) => format!("XS (Propose {h})"),
         }
     }
 }
@@ -143,6 +155,15 @@ fn apply(node: &RaftNode, s: &Step) -> Vec<u64> {
             node.become_leader();
             vec![]
         }
+        Step::Compact { back, .. } => {
+            let h = node.commit_index().saturating_sub(*back);
+            if h >= 1 && node.finalize_to(h).is_ok() {
+                if let Ok((meta, _)) = node.create_snapshot() {
+                    let _ = node.truncate_log(&meta);
+                }
+            }
+            vec![]
+        }
         Step::Propose(h) => {
             node.quorum_tracker().mark_reachable(&nid(1));
             node.quorum_tracker().mark_reachable(&nid(2));
@@ -193,7 +214,7 @@ impl Table {
                     self.trunc(e.0);
                 }
             }
-            Step::BecomeLeader => {}
+            Step::BecomeLeader | Step::Compact { .. } => {}
             Step::Propose(h) => self.full(&(len + 1, term, *h)),
         }
     }
@@ -236,14 +257,38 @@ fn run_generation(node: RaftNode, wal: &Path, scratch: &Path, steps: &[Step], ta
     let mut lives: Vec<NObs> = vec![observe(&node)];
     let mut outs = vec![];
     let mut ends = vec![];
-    for s in steps {
-        tab.for_step(s, node.current_term(), node.log_length() as u64);
+    let mut steps: Vec<Step> = steps.to_vec();
+    for s in steps.iter_mut() {
+        // after a compaction the harness only sends requests that refer to retained entries
+        // (prev index above the compaction base), as a leader that is not behind the snapshot does
+        let image = node.verif_log_image();
+        let cbase = image.first().map_or(0, |e| e.0 - 1);
+        if cbase > 0 {
+            if let Step::Append { prev_i, prev_t, ents, .. } = s {
+                if *prev_i <= cbase {
+                    *prev_i = cbase + 1;
+                    *prev_t = image[0].1;
+                    for (j, e) in ents.iter_mut().enumerate() {
+                        e.0 = *prev_i + 1 + j as u64;
+                    }
+                    dist.hit("step.Append.moved_above_compaction_base");
+                }
+            }
+        }
+        tab.for_step(s, node.current_term(), node.last_log_index());
         dist.hit(&format!("step.{}", format!("{s:?}").split(|c: char| !c.is_alphanumeric()).next().unwrap_or("?")));
         let out = guarded(std::panic::AssertUnwindSafe(|| apply(&node, s))).unwrap_or_else(|_| vec![98]);
+        if let Step::Compact { newbase, .. } = s {
+            *newbase = node.verif_log_image().first().map_or(0, |e| e.0 - 1);
+            if *newbase > cbase {
+                dist.hit("step.Compact.log_shortened");
+            }
+        }
         outs.push(out);
         lives.push(observe(&node));
         ends.push(fs::metadata(wal).map(|m| m.len()).unwrap_or(0));
     }
+    let steps = &steps[..];
     drop(node);
     let fbytes = fs::read(wal).unwrap_or_default();
     let len = fbytes.len() as u64;
@@ -288,7 +333,7 @@ fn run_generation(node: RaftNode, wal: &Path, scratch: &Path, steps: &[Step], ta
                 };
                 rt >= lt
                     && (rt != lt || lv.map_or(true, |c| *rv == Some(c) && (c == PROBE || !granted)))
-                    && rl.iter().take(keep).eq(ll.iter().take(keep))
+                    && ll.iter().take(keep).all(|e| rl.contains(e))
             }
         };
         if !holds && fail.is_none() {
@@ -439,7 +484,8 @@ fn gen_step(r: &mut Rng, term: u64, log: &[LEntry], role: u64) -> Step {
             Step::Append { t, leader: *r.pick(&[1u64, 2]), prev_i, prev_t, ents, commit: r.below(len + 2) }
         }
         80..=84 => Step::AppendResp { from: *r.pick(&[1u64, 2]), t: near_term(r) },
-        85..=90 => Step::BecomeLeader,
+        85..=87 => Step::BecomeLeader,
+        88..=90 => Step::Compact { back: r.below(2), newbase: 0 },
         _ => {
             if role == 2 || r.chance(1, 3) {
                 Step::Propose(200 + r.below(50))
@@ -494,9 +540,28 @@ fn main() {
         vec![pick_back(10), pick_end()],
     );
 
+    // in-memory compaction, then a conflict truncation above the compaction base, then restart
+    for trailing in [0usize, 1, 2] {
+        TRAILING.store(trailing, std::sync::atomic::Ordering::SeqCst);
+        run_case(
+            &mut cx,
+            &format!("corpus compaction-then-conflict (trailing {trailing})"),
+            vec![
+                vec![
+                    Step::Append { t: 1, leader: 1, prev_i: 0, prev_t: 0, ents: vec![(1, 1, 101), (2, 1, 102), (3, 1, 103), (4, 1, 104), (5, 1, 105), (6, 1, 106), (7, 1, 107)], commit: 5 },
+                    Step::Compact { back: 0, newbase: 0 },
+                    Step::Append { t: 2, leader: 2, prev_i: 6, prev_t: 1, ents: vec![(7, 2, 117), (8, 2, 118)], commit: 5 },
+                ],
+                vec![Step::Append { t: 3, leader: 1, prev_i: 8, prev_t: 2, ents: vec![(9, 3, 119)], commit: 8 }, Step::Compact { back: 1, newbase: 0 }, Step::Elect, Step::BecomeLeader, Step::Propose(220)],
+            ],
+            vec![pick_end(), pick_end()],
+        );
+    }
+
     // ---------------- seeded ----------------
     let ncases = args.budget(40, 500);
     for ci in 0..ncases {
+        TRAILING.store(rng.below(3) as usize, std::sync::atomic::Ordering::SeqCst);
         let ngen = rng.range(1, 3) as usize;
         let mut gens = vec![];
         let mut picks: Vec<Pick> = vec![];
@@ -542,6 +607,7 @@ fn main() {
                         }
                     }
                     Step::BecomeLeader => role = 2,
+                    Step::Compact { .. } => {}
                     Step::Propose(h) => {
                         if role == 2 {
                             log.push((log.len() as u64 + 1, term, *h));
